@@ -674,6 +674,7 @@ public:
     bool rebox = (hist == 7 && !(opt == "NewtonBacktrack" || opt == "Brent" || opt == "GoldenSection"));
 
     string cfg;
+    bool cvg = true; // the configuration is a minimiser whose minimiser the driver knows (convergence clause applicable)
     long metaN = 0; // number of precision stages of a meta-optimiser (0: not one)
     f->sink = &sc.sink;
     f->cap = 60 * maxEval + 20000;
@@ -784,11 +785,15 @@ public:
         string in = inner[g.below(6)];
         if (names.size() == 1 && g.chance(1, 3)) in = "Newton1D";
         if (in == "DownhillSimplex" && !simplexOk) in = "Powell";
+        string ty = g.coin() ? bpp::MetaOptimizerInfos::IT_TYPE_STEP : bpp::MetaOptimizerInfos::IT_TYPE_FULL;
+        // step-wise derivative-free sub-optimisers leave the function at a trial point: make them frequent
+        if (ty == bpp::MetaOptimizerInfos::IT_TYPE_STEP && in != "Newton1D" && g.chance(1, 3)) in = g.coin() ? "Powell" : "DownhillSimplex";
+        // the simplex method step-wise: init() rebuilds the simplex at every meta step, so it cannot converge by
+        // construction (no convergence claim for such a configuration), but it must still descend and report consistently
+        if (in == "DownhillSimplex" && ty == bpp::MetaOptimizerInfos::IT_TYPE_STEP) cvg = false;
         auto io = makeInner(in, f);
         quiet(*io);
         io->setMaximumNumberOfEvaluations(static_cast<unsigned>(maxEval));
-        string ty = g.coin() ? bpp::MetaOptimizerInfos::IT_TYPE_STEP : bpp::MetaOptimizerInfos::IT_TYPE_FULL;
-        if (in == "DownhillSimplex") ty = bpp::MetaOptimizerInfos::IT_TYPE_FULL; // init() rebuilds the simplex: a lone step cannot converge by construction
         cfg += (cfg.empty() ? "" : "+") + in + ":" + ty;
         desc->addOptimizer(in, io, names, static_cast<unsigned short>(derivs(in)),
                            ty);
@@ -810,7 +815,7 @@ public:
     {
       Obj o;
       o.kv("e", "Reset").kv("opt", opt).kv("dim", n).kv("kind", KINDS[kind]);
-      o.kv("pol", pol).kv("max", maxEval).kv("tk", tk).kv("inact", inactive).kv("sc", id).kv("cfg", cfg).kv("hist", hist).kv("kap", static_cast<long>(f->kappa + 0.5)).kv("fat", fat < 4 ? "start" : fat < 7 ? "min" : "else").kv("full", !blocks).kv("mn", metaN);
+      o.kv("pol", pol).kv("max", maxEval).kv("tk", tk).kv("inact", inactive).kv("sc", id).kv("cfg", cfg).kv("hist", hist).kv("kap", static_cast<long>(f->kappa + 0.5)).kv("fat", fat < 4 ? "start" : fat < 7 ? "min" : "else").kv("full", !blocks).kv("cvg", cvg && !blocks).kv("mn", metaN);
       Arr b;
       for (size_t i = 0; i < n; ++i) b.add(Arr().add(bx.has[i] != 0).add(bx.il[i] != 0).add(bx.iu[i] != 0));
       o.kv("box", b);
@@ -1128,7 +1133,7 @@ public:
     {
       Obj o;
       o.kv("e", "Reset").kv("opt", inward ? "BracketInward" : "BracketOutward").kv("dim", 1).kv("kind", KINDS[kind]);
-      o.kv("pol", constrained ? "auto" : "ignore").kv("max", 0).kv("tk", 0).kv("inact", true).kv("sc", id).kv("full", true).kv("mn", 0);
+      o.kv("pol", constrained ? "auto" : "ignore").kv("max", 0).kv("tk", 0).kv("inact", true).kv("sc", id).kv("full", true).kv("cvg", true).kv("mn", 0);
       o.kv("box", Arr().add(Arr().add(bx.has[0] != 0).add(bx.il[0] != 0).add(bx.iu[0] != 0)));
       tracer().emit(o);
       tracer().flush();
